@@ -37,6 +37,8 @@ if p.returncode != 0:
 res = json.loads(p.stdout.rsplit('@@C19JSON@@', 1)[1])
 if section == "cases":
     V = EV.evaluate(case, res["cases"][0])
+elif section == "batches":
+    V = EV.evaluate_batch(case, res["batch"][0])
 else:
     V = EV.evaluate_sim(case, res["sim"][0])
 hit = [v for v in V if v[0] == kind]
@@ -70,10 +72,13 @@ def run_harness(ctx, req, timeout=1500):
     nproc = 4 if ctx.tier == "quick" else 8
     for ch in chunks(cs, nproc) if cs else []:
         parts.append({"cases": ch})
-    rest = {k: v for k, v in req.items() if k != "cases" and v}
+    rest = {k: v for k, v in req.items() if k not in ("cases", "batches") and v}
     if rest:
         parts.append(rest)
-    out = {"cases": [], "spectral": [], "sim": []}
+    if req.get("batches"):
+        for ch in chunks(req["batches"], 2):
+            parts.append({"batches": ch})
+    out = {"cases": [], "spectral": [], "sim": [], "batch": []}
     errs = []
 
     def one(part):
@@ -231,7 +236,8 @@ def run(ctx):
     cases += G.make_adversarial(rng, 9 if quick else 30)
     spec = G.make_spectral(rng, 6 if quick else 24)
     sims = G.make_sims(rng, 2 if quick else 6)
-    out, errs = run_harness(ctx, {"cases": cases, "spectral": spec, "sim_cases": sims})
+    batches = G.make_batches(rng, 24 if quick else 96)
+    out, errs = run_harness(ctx, {"cases": cases, "spectral": spec, "sim_cases": sims, "batches": batches})
     if errs:
         ctx.obligation("corr:harness", False, errs[0])
         ctx.violation("corr:harness-crash", "the implementation-side harness failed: " + errs[0].strip().splitlines()[-1][:200], {"stderr": errs[0]}, found_input=False)
@@ -278,6 +284,31 @@ def run(ctx):
                 short["path"] = c["path"][:k + 1] if k >= 0 else c["path"]
                 short["fd_steps"] = [x for x in c.get("fd_steps", []) if x <= k]
                 found[key] = ("%s at step %d of %s: %s" % (kind, k, c["id"], detail), replay_for(short, kind))
+    # batched fields: the result of a batch is the results of its points
+    bres = {r["id"]: r for r in out["batch"]}
+    nbp = 0
+    bdist = {}
+    for c in batches:
+        r = bres.get(c["id"])
+        if r is None:
+            continue
+        bdist["%s/%s" % (c["mode"], c["field_kind"])] = bdist.get("%s/%s" % (c["mode"], c["field_kind"]), 0) + 1
+        for rec in r.get("calls", []):
+            for pr in rec.get("points", []):
+                nbp += 1
+                ctx.note_case("%s:%d:%d:%d" % (c["id"], rec["call"], pr["e"], pr["g"]) if pr.get("nsig", 0) > 0 else None)
+        for kind, k, detail in EV.evaluate_batch(c, r):
+            fam = "/".join(str(x) for x in (c["combo"][0], "kin" if c["combo"][2] != "none" else "nokin", c["combo"][3], "branches" if c["combo"][4] else "nobranch", c["combo"][5]))
+            key = "%s:batched:%s" % (kind, fam)
+            if key not in found:
+                short = dict(c)
+                short["fields"] = c["fields"][:k + 1] if k >= 0 else c["fields"]
+                found[key] = ("%s in batched field %s: %s" % (kind, c["id"], detail), replay_for(short, kind, "batches"))
+    ctx.cov["batched_points"] = nbp
+    ctx.cov["batched_field_distribution"] = bdist
+    for pred in ["batch-differs-from-pointwise", "not-odd-without-internal-variables"]:
+        bad = [k for k in found if k.split(":")[0] == pred]
+        ctx.obligation("corr:" + pred, not bad, "; ".join(found[b][0][:200] for b in bad[:3]) or "held on %d batched points" % nbp)
     ctx.cov["input_distribution"] = dist
     ctx.cov["integrate_steps"] = nsteps
     ctx.cov["steps_reported_converged"] = nconv
